@@ -315,14 +315,10 @@ func init() {
 		BudgetThor:  25 * time.Minute,
 		Kind:        "schedules",
 		Rule: "every conc block with 1..2 distinct children, and (quick: every second; thorough: every) block with 3 distinct children, over 14 statement kinds (assignments to the same / different locals, injected field, map entry with a literal and with a rule-local key; function, method, three-level calls on injected objects and on an object held in a rule local; failing assignment / function / method), also re-entered inside a for loop, in two concurrently running rules, and evaluated by two overlapping pool requests (one rule tree shared by all instances; every schedule with <=2 (3) deviations); " +
-			"every schedule of the block's goroutines (4 spawners + one per child) with <=2 preemptions for 1-2 children and <=1 for 3 children / two rules (thorough: one more for single children, every third pair and every fourth triple, plus more for-loop and two-rule variants); oracle: each child exactly once, every child end before the next statement, next statement observes all assignments, failure => error after all children finished and the next statement does not run, nothing still runs after the call returned",
+			"every schedule of the block's goroutines (4 spawners + one per child) with <=2 preemptions for 1-2 children and <=1 for 3 children / two rules (thorough: one more for single children and every fifth pair, plus the remaining triples and more for-loop and two-rule variants); oracle: each child exactly once, every child end before the next statement, next statement observes all assignments, failure => error after all children finished and the next statement does not run, nothing still runs after the call returned",
 		Assume: []string{"injected functions terminate", "sequentially consistent memory (races are C19's subject)"},
 		Run: func(c *hx.Ctx) {
-			b := 2
-			if c.Thorough() {
-				b = 3
-			}
-			b = envBound(b)
+			b := envBound(2)
 			for i, cfg := range concConfigs(c.Thorough()) {
 				if !c.Mine(i) {
 					continue
@@ -335,14 +331,16 @@ func init() {
 				if len(cfg.Kids) >= 3 || cfg.Two {
 					bb = b - 1 // 8+ threads: one preemption less
 				}
-				if c.Thorough() && len(cfg.Kids) >= 2 {
-					// the deeper bound for every third pair / fourth triple (all of them do not finish in the budget)
+				if c.Thorough() && !cfg.InFor && !cfg.Two {
+					// the thorough tier's third preemption: single children and every fifth pair (measured: with
+					// it everywhere the run does not finish in 25 minutes); otherwise thorough adds the
+					// remaining triples and more for-loop / two-rule variants at the quick bounds
 					sum := 0
 					for _, k := range cfg.Kids {
 						sum += k
 					}
-					if (len(cfg.Kids) == 2 && sum%3 != 0) || (len(cfg.Kids) >= 3 && sum%4 != 0) {
-						bb--
+					if len(cfg.Kids) == 1 || (len(cfg.Kids) == 2 && sum%5 == 0) {
+						bb = b + 1
 					}
 				}
 				hx.Explore("C18", concScenario(cfg), hx.ExploreCfg{Bound: bb, Prune: true, Deadline: c.Deadline}, c.Res)
